@@ -78,6 +78,19 @@ func main() {
 		fmt.Fprintln(os.Stderr, "usage: verifharness <command> [flags]")
 		os.Exit(2)
 	}
+	if os.Args[1] == "list-dumps" {
+		var names []string
+		for k := range cmds {
+			if len(k) > 5 && k[:5] == "dump-" {
+				names = append(names, k)
+			}
+		}
+		sort.Strings(names)
+		for _, k := range names {
+			fmt.Println(k)
+		}
+		return
+	}
 	f, ok := cmds[os.Args[1]]
 	if !ok {
 		fmt.Fprintf(os.Stderr, "unknown command %s\n", os.Args[1])
